@@ -31,12 +31,12 @@ PROPS = {
                       (["join", "try_join", "merge", "zip", "race", "chain"], "big", 0.05),
                       (["join", "try_join", "merge", "zip"], "waves", 0.08)],
                 assumptions=COMMON_ASSUME),
-    "C02": dict(monitor="C02", proj="C02", modules=["C02a", "C02b", "C02g"], ps=True, cfgs=ALL3, quick=900, thorough=12000,
+    "C02": dict(monitor="C02", proj="C02", modules=["C02a", "C02b", "C02g", "C02nest"], ps=True, cfgs=ALL3, quick=900, thorough=12000,
                 gens=[(GROUPS, "exh", 0.3), (["join", "try_join", "race", "race_ok", "merge", "zip", "chain"], "exh", 0.4), (ALL_FIXED, "random", 1.0), (GROUPS, "random", 0.4), (ALL_FIXED + GROUPS, "panic", 0.5),
                       (["join", "try_join", "race_ok", "zip"], "big", 0.05)],
                 assumptions=COMMON_ASSUME + ["memory effects of unsafe code are outside the model; the model "
                                              "shows the bookkeeping never asks for a second drop"]),
-    "C03": dict(monitor="C03", proj="C03", modules=["C03", "C03g"], ps=True, cfgs=ALL3, quick=900, thorough=12000,
+    "C03": dict(monitor="C03", proj="C03", modules=["C03", "C03g", "C03nest"], ps=True, cfgs=ALL3, quick=900, thorough=12000,
                 gens=[(GROUPS, "exh", 0.3), (["join", "try_join", "race", "race_ok", "merge", "zip", "chain"], "exh", 0.4), (["nest"], "random", 0.2), (ALL_FIXED, "random", 1.0), (GROUPS, "random", 0.5), (GROUPS, "refill", 0.3), (CONC, "stuck", 0.2)],
                 assumptions=COMMON_ASSUME),
     "C16": dict(monitor="C16", proj="C16", modules=["C16", "C16g"], cfgs=["std", "stdv"], ks=True, quick=2500, thorough=30000,
